@@ -580,6 +580,12 @@ def check_first_entry_widening(ctx, facts, fn_name="batch_read_for_topic", rid="
             cs = call_site_of(b, {"k": "copy", "place": T.place})
             if cs is not None and re.search(r"::deserialize$", callee_name(cs.node)):
                 why = "header decode failed"
+            else:
+                # `deserialize(..).ok()?` and the like: the tested value derives from the decode's result
+                dsrc, _, _ = origins(b, {"k": "copy", "place": {"l": T.place["l"], "p": []}}, follow_all_calls=True)
+                calls_ = [strip_generics(o.what) for o in dsrc if o.kind == "call"]
+                if any(re.search(r"::deserialize$", c_) for c_ in calls_) and all(re.search(r"::deserialize$|Try>::branch$|::ok$|::map_err$|::archived_root$|AlignedVec|::extend_from_slice$|::with_capacity$|Index|::index$|::deref$", c_) for c_ in calls_):
+                    why = "header decode failed"
         if why:
             ctx.ok(rid, F, "widening bypass: " + why, b.relfile, line)
         else:
